@@ -78,6 +78,9 @@ ASSUMPTIONS = [
     "directly on the base circuit does not renumber the modes addressed by Circuit.add and is outside "
     "the quantifier (2n visible modes addressed as 0..2n-1)",
     "n = 1..3 qubits in the correspondence check (theorems are for every n)",
+    "histories: Circuit.unpack_groups() on a base circuit holding heralded sub-circuits makes their ancilla modes "
+    "heralds of the base circuit itself, after which construction calls address full mode numbers; extending "
+    "the base circuit AFTER such a call is outside the quantifier like any directly declared herald",
     "histories: the experiment callback and experiment_args are the object's public attributes; the state "
     "'the base circuit prepares' is taken for the input the CURRENT experiment / experiment_args use",
     "fidelity convention: F = tr sqrt(sqrt(rho) sigma sqrt(rho)) (no square), as the code and the model's "
@@ -350,6 +353,7 @@ def make_experiment(cfg: dict, rec: dict, n: int, cache: dict | None = None):
     def experiment(circuits, bits=None):
         use = list(cfg["in_bits"] if bits is None else bits)
         rec["bits"] = use
+        rec["by"] = cfg["shuffle"]  # which callback ran (the seeds are effectively unique per callback)
         in_state = tm.input_state(use)
         rec["seen"].extend(circuits)
         out = []
@@ -397,6 +401,8 @@ def check_process_call(ctx: Ctx, n: int, base, tomo, rec: dict, in_state, mprog,
         return probs, None
     rec["seen"].clear()
     rec["returned"].clear()
+    rec.pop("by", None)
+    rec.pop("bits", None)
     seen, returned = rec["seen"], rec["returned"]
     try:
         rho = np.array(tomo.process())
@@ -657,7 +663,14 @@ def gen_hist_case(ctx: Ctx, rng) -> dict:
                 steps.append({"op": "setargs", "obj": o, "args": bits})
                 state[o]["args"] = bits
             elif x < 0.65:
-                steps.append({"op": "tidy", "what": rng.choice(TIDY_OPS)})
+                what = rng.choice(TIDY_OPS)
+                # unpack_groups turns the private ancilla modes of added heralded sub-circuits into heralds
+                # declared directly on the base circuit: later construction calls then address full mode
+                # numbers (see ASSUMPTIONS) - only generated when nothing is added afterwards
+                two_q = any(g[0] in ("CZ", "CNOT") for c in chunks[: r + 1] for g in c)
+                if what == "unpack_groups" and two_q and any(chunks[r + 1:]):
+                    what = "compress_mode_swaps"
+                steps.append({"op": "tidy", "what": what})
         who = [rng.randrange(n_obj)] if rng.random() < 0.75 else list(range(n_obj))
         if rng.random() < 0.15:
             who = who + [who[0]]  # repeated call without any change
@@ -742,7 +755,7 @@ def run_hist(ctx: Ctx, case: dict, want_info: bool = False):
     cache: dict = {}
     probs: list[str] = []
     info = {"processes": 0, "state_changed_between_calls": 0, "modes_changed_between_calls": 0, "ops": set()}
-    since: list = []  # operations since the previous process() of any object (for the messages)
+    unpacked_with_heralds = False
     for i, st in enumerate(case["steps"]):
         op = st["op"]
         if op == "new":
@@ -769,6 +782,8 @@ def run_hist(ctx: Ctx, case: dict, want_info: bool = False):
             if detail is not None and o["rec"].get("bits") != bits:
                 p.append(f"oracle: the callback was handed experiment_args {o['rec'].get('bits')}, the object's "
                          f"current experiment / experiment_args say {bits}")
+            if detail is not None and o["rec"].get("by") != o["cfg"]["shuffle"]:
+                p.append("oracle: process() did not call the experiment currently assigned to the object")
             if detail is not None:
                 p += compare_with_fresh(ctx, n, base, o, bits, detail, cache)
                 cur = (detail["psi"] / np.sqrt(detail["norm"]), base.n_modes)
@@ -788,6 +803,9 @@ def run_hist(ctx: Ctx, case: dict, want_info: bool = False):
         # ---- mutations
         info["ops"].add(op)
         tag = op
+        if op == "extend" and unpacked_with_heralds:
+            ctx.count("hist:extend-after-unpack_groups-with-heralds (outside the quantifier, history stopped)")
+            break
         if op == "extend":
             before_modes = base.n_modes
             hist_apply(base, n, st["gates"], pobj, st["how"])
@@ -815,6 +833,8 @@ def run_hist(ctx: Ctx, case: dict, want_info: bool = False):
                 base.barrier()
             else:
                 getattr(base, st["what"])()
+            if st["what"] == "unpack_groups" and base.heralds["output"]:
+                unpacked_with_heralds = True
             tag = "tidy-" + st["what"]
         else:
             raise MachineryFault(f"unknown history step {op}")
@@ -868,14 +888,14 @@ def shrink_hist(ctx: Ctx, case: dict) -> dict:
         except Exception:  # noqa: BLE001  (a history that is no longer well formed)
             return False
 
-    steps = ddmin(case["steps"], still, max_tests=80) if len(case["steps"]) > 1 else case["steps"]
+    steps = ddmin(case["steps"], still, max_tests=60) if len(case["steps"]) > 1 else case["steps"]
     # then the gates inside every remaining extension
     for k, st in enumerate(steps):
         if st["op"] == "extend" and len(st["gates"]) > 1:
             def still_g(gates, k=k, st=st):
                 return still([*steps[:k], dict(st, gates=gates), *steps[k + 1:]])
 
-            steps = [*steps[:k], dict(st, gates=ddmin(st["gates"], still_g, max_tests=30)), *steps[k + 1:]]
+            steps = [*steps[:k], dict(st, gates=ddmin(st["gates"], still_g, max_tests=20)), *steps[k + 1:]]
     return dict(case, steps=steps)
 
 
@@ -1037,9 +1057,14 @@ def gen_fid_case(ctx: Ctx, rng, n_trials: int) -> dict:
 
 
 def _f28_case() -> dict:
+    """the matrix of finding F28: |1>|-> as process() returned it (entries exactly 1/2) with the
+    residue eps * X(x)X it carried"""
     psi = kron_all([[0, 1], [H_, -H_]])
     e = F28_EPS
+    rho0 = np.zeros((4, 4), dtype=complex)
+    rho0[2:, 2:] = [[0.5, -0.5], [-0.5, 0.5]]
     return {"stream": "fid", "n": 2, "kind": "product", "psi": [[float(z.real), float(z.imag)] for z in psi],
+            "rho0": mat_json(rho0),
             "trials": [{"cls": "pauli", "E": [[0, 3, e, 0.0], [1, 2, e, 0.0]], "args": a, "aslist": False}
                        for a in ("pert-vs-pert", "pert-vs-exact", "exact-vs-pert")]}
 
@@ -1063,7 +1088,7 @@ def check_fid_value(f, want: float, what: str) -> str | None:
 def run_fid(ctx: Ctx, case: dict) -> list[str]:
     psi = np.array([complex(*z) for z in case["psi"]], dtype=complex)
     d = len(psi)
-    rho0 = density_from_state(psi)
+    rho0 = mat_np(case["rho0"]) if case.get("rho0") else density_from_state(psi)
     probs = []
     for t, tr in enumerate(case["trials"]):
         pert = rho0 + residue_np(d, tr["E"])
@@ -1350,10 +1375,10 @@ def report(ctx: Ctx, case: dict, probs: list[str]) -> None:
     if case["stream"] == "state":
         small = shrink_state(ctx, case)
         probs = run_state(ctx, small) or probs
-    elif case["stream"] == "hist":
+    elif case["stream"] == "hist" and len(ctx.violations) < ctx.max_reports:  # (later ones are only counted)
         small = shrink_hist(ctx, case)
         probs = run_hist(ctx, small) or probs
-    elif case["stream"] == "fid":
+    elif case["stream"] == "fid" and len(ctx.violations) < ctx.max_reports:
         small = shrink_fid(ctx, case)
         probs = run_fid(ctx, small) or probs
     oracle = [p for p in probs if p.startswith("oracle")]
